@@ -324,6 +324,17 @@ def scalar_ufunc(ufunc, method, *inputs, **kw):
     return apply_ufunc(ufunc, method, inputs, kw)
 
 
+def scalar_array_function(func, args, kwargs):
+    """numpy functions called directly on symbolic scalars (np.isclose(d, t), np.clip(x, lo, hi), np.where(c, a, b) ...)"""
+    h = HANDLED.get(func)
+    if h is None:
+        raise RealisationError(f"numpy function {getattr(func, '__name__', func)} on a symbolic scalar not modelled")
+    r = h(*args, **kwargs)
+    if isinstance(r, np.ndarray) and r.shape == ():
+        return r[()]
+    return r
+
+
 # ------------------------------------------------------------------------------------------
 # sorting / arg-selection by forking comparisons
 # ------------------------------------------------------------------------------------------
